@@ -21,6 +21,11 @@ pub fn check(tier: Tier) -> Check {
     // the client's own QoS 2 publishes use the same identifier values (1, 2, ...) - an independent
     // namespace: their PUBREC / PUBCOMP must not touch the inbound bookkeeping
     parts.push(Part::new("C09/qos2", json!({"depth": tier.pick(6, 7), "own": true}), 0, tier.pick(40, 400)));
+    // the server's Receive Maximum / Maximum Packet Size limit what the CLIENT sends; the number of
+    // inbound exchanges open at once is not bounded by them
+    parts.push(Part::new("C09/qos2", json!({"depth": tier.pick(6, 7), "r": 1, "m": 40}), 0, tier.pick(40, 300)));
+    parts.push(Part::new("C09/qos2", json!({"depth": tier.pick(5, 6), "r": 2, "ids": [1, 2, 3], "own": true}), 0, tier.pick(40, 300)));
+    parts.push(Part::new("C09/wide", json!({"n": 300, "r": 7}), 0, 300));
     // the bookkeeping across a reconnect: kept while the session lives, forgotten when it expired
     parts.push(Part::new("C09/reset", json!({}), 0, 60));
     parts.push(Part::new("C09/wide", json!({"n": tier.pick(4096, 65535)}), 0, 300));
@@ -28,7 +33,7 @@ pub fn check(tier: Tier) -> Check {
         also_rel: false,
         property: "C09",
         level: "model_checking",
-        rule: "all sequences over {PUBLISH(QoS 2, id in {1,2} / {1,257} / {255,65535}, DUP 0/1), PUBREL(id in {1,2}), an unrelated QoS 1 PUBLISH} against one subscribed stream, also interleaved with two QoS 2 publishes of the client's own that carry the same identifier values and their PUBREC / PUBCOMP; the model keeps the set of identifiers awaiting PUBREL; plus the bookkeeping across a reconnect (an unreleased identifier is still a re-delivery after a resume of the live session, and a new message after an expired one); plus deterministic runs over every identifier 1..=n at once (deliver all, re-deliver all, release all, twice, three orders); non-trivial = a re-delivery had to be suppressed".into(),
+        rule: "all sequences over {PUBLISH(QoS 2, id in {1,2} / {1,257} / {255,65535}, DUP 0/1), PUBREL(id in {1,2}), an unrelated QoS 1 PUBLISH} against one subscribed stream, also interleaved with two QoS 2 publishes of the client's own that carry the same identifier values and their PUBREC / PUBCOMP; the model keeps the set of identifiers awaiting PUBREL; the same under a CONNACK with Receive Maximum 1 / 2 / 7 and a Maximum Packet Size (limits on what the client sends, not on inbound exchanges); plus the bookkeeping across a reconnect (an unreleased identifier is still a re-delivery after a resume of the live session, and a new message after an expired one); plus deterministic runs over every identifier 1..=n at once (deliver all, re-deliver all, release all, twice, three orders); non-trivial = a re-delivery had to be suppressed".into(),
         assumptions: vec![],
         parts,
     }
@@ -42,7 +47,7 @@ fn wide(name: String, params: Value) -> Scenario {
         let stride = [1u32, 33, 257][chz.choose(3)];
         let mut sys = Sys::new("C09", &name, chz);
         sys.params = params.clone();
-        sys.bring_up(vec![]);
+        sys.bring_up(params["r"].as_u64().map(|r| receive_max(r as u16)).unwrap_or_default());
         sys.apply(Ev::Start(OpSpec::Subscribe(SubscribeSpec::simple("s/a"))));
         if sys.dead {
             return sys.report(ex, &[]);
@@ -184,7 +189,11 @@ pub fn scenario(name: &str, params: &Value) -> Scenario {
     Box::new(move |chz, ex| {
         let mut sys = Sys::new("C09", &name, chz);
         sys.params = params.clone();
-        sys.bring_up_fl(vec![], params["flavour"].as_u64().unwrap_or(0));
+        let mut cprops = params["r"].as_u64().map(|r| receive_max(r as u16)).unwrap_or_default();
+        if let Some(m) = params["m"].as_u64() {
+            cprops.push(Prop::u32(P_MAXIMUM_PACKET_SIZE, m as u32));
+        }
+        sys.bring_up_fl(cprops, params["flavour"].as_u64().unwrap_or(0));
         sys.apply(Ev::Start(OpSpec::Subscribe(SubscribeSpec::simple("s/a"))));
         if sys.dead {
             return sys.report(ex, &[]);
